@@ -270,11 +270,10 @@ func c16ListenerFields(c *Ctx) {
 			ws := ix.Writers(fr)
 			okW := len(ws) >= 1
 			for _, w := range ws {
-				top := w
-				for top.Parent() != nil {
-					top = top.Parent()
-				}
-				if !isBuilderMethod(top) && !isConstructorLike(top) && !(s.typ == "executor" && (top.Name() == "OnDone" || top.Name() == "OnSuccess" || top.Name() == "OnFailure" || top.Name() == "WithContext")) {
+				isExec := s.typ == "executor"
+				if !ix.Within(w, func(top *ssa.Function) bool {
+					return isBuilderMethod(top) || isConstructorLike(top) || (isExec && (top.Name() == "OnDone" || top.Name() == "OnSuccess" || top.Name() == "OnFailure" || top.Name() == "WithContext"))
+				}) {
 					okW = false
 				}
 			}
@@ -323,6 +322,7 @@ func c17Counters(c *Ctx) {
 	readers := map[string]bool{"Load": true}
 	n := 0
 	ok := true
+	ix := BuildIndex(c.P)
 	for _, fn := range c.P.Funcs {
 		if fn.Pkg == nil || fn.Pkg.Pkg.Name() != "failsafe" {
 			continue
@@ -360,7 +360,7 @@ func c17Counters(c *Ctx) {
 				if readers[m] {
 					continue
 				}
-				if m != "Add" || !allowed[field][c.fn(fn)] {
+				if m != "Add" || !ix.WithinNames(fn, sortedKeys(allowed[field])...) {
 					ok = false
 					c.Fail("failsafe.execution."+field, c.P.Pos(in.Pos()), fmt.Sprintf("%s.%s in %s: the counter may only be read, or bumped by Add(1) in %s", field, m, c.fn(fn), strings.Join(sortedKeys(allowed[field]), ", ")), "")
 					continue
@@ -377,7 +377,6 @@ func c17Counters(c *Ctx) {
 		c.Ok("failsafe.execution#counters", "", fmt.Sprintf("%d atomic operations: attempts bumped only by the constructor, InitializeRetry and CopyForHedge; retries only by InitializeRetry; hedges only by CopyForHedge; executions only by record(); everything else only loads", n))
 	}
 	// plain fields
-	ix := BuildIndex(c.P)
 	for field, ws := range map[string][]string{
 		"startTime":        {"failsafe.newExecution"},
 		"attemptStartTime": {"failsafe.newExecution", "failsafe.(*execution).InitializeRetry"},
@@ -385,13 +384,9 @@ func c17Counters(c *Ctx) {
 		"attempts":         {"failsafe.newExecution"}, "retries": {"failsafe.newExecution"}, "hedges": {"failsafe.newExecution"}, "executions": {"failsafe.newExecution"},
 		"mtx": {"failsafe.newExecution"}, "canceledResult": {"failsafe.newExecution"},
 	} {
-		want := map[string]bool{}
-		for _, w := range ws {
-			want[w] = true
-		}
 		good := true
 		for _, w := range ix.Writers(FieldRef{Type: "execution", Pkg: "failsafe", Field: field}) {
-			if !want[c.fn(w)] {
+			if !ix.WithinNames(w, ws...) {
 				good = false
 				c.Fail("failsafe.execution."+field+"#writers", c.P.FuncPos(w), field+" is written by "+c.fn(w)+"; allowed: "+strings.Join(ws, ", "), "")
 			}
@@ -510,11 +505,16 @@ func c17RecordCallers(c *Ctx) {
 		return
 	}
 	var ns []string
+	leaf := leafFunction(c)
+	onlyLeaf := leaf != nil
 	for _, cal := range ix.Callers[rec] {
 		ns = append(ns, c.fn(cal))
+		if cal != leaf {
+			onlyLeaf = false
+		}
 	}
 	sort.Strings(ns)
-	if len(ns) != 1 || ns[0] != "failsafe.(*executor).execute$1" {
+	if len(ns) != 1 || !onlyLeaf {
 		c.Fail("failsafe.(*execution).record#callers", "", "record() must be called only by the leaf around the user function (rejected attempts never reach it and must not count as executions); callers: "+strings.Join(ns, ", "), "")
 	} else {
 		c.Ok("failsafe.(*execution).record#callers", "", "only the leaf calls record()")
@@ -559,9 +559,9 @@ func rulesC08(c *Ctx) {
 func c08Blocking(c *Ctx) {
 	c.Rule("blocking-inventory")
 	reviewed := map[string]string{
-		"hedgepolicy.(*executor).Apply$1#select":          "hedge wait on result channel / delay timer: attempt contexts derive from the parent (CopyFor* checked) and the parent is re-tested right after each wait (C09.loop)",
-		"hedgepolicy.(*executor).Apply$1#recv":            "final hedge wait on the result channel: same argument",
-		"hedgepolicy.(*executor).Apply$1$1#send":          "single send on a capacity-1 channel guarded by a once-only CAS (C09.attempt): cannot block",
+		"hedgepolicy.(*executor).Apply#select":            "hedge wait on result channel / delay timer: attempt contexts derive from the parent (CopyFor* checked) and the parent is re-tested right after each wait (C09.loop)",
+		"hedgepolicy.(*executor).Apply#recv":              "final hedge wait on the result channel: same argument",
+		"hedgepolicy.(*executor).Apply#send":              "single send on a capacity-1 channel guarded by a once-only CAS (C09.attempt): cannot block",
 		"failsafe.(*executionResult).Get#recv":            "Get blocks until the execution is done, by contract",
 		"bulkhead.(*bulkhead).ReleasePermit#recv":         "receives a permit that the caller holds: cannot block when paired (C06.pairing)",
 		"ratelimiter.(*rateLimiter).AcquirePermits#sleep": "AcquirePermits(nil, …): no context given, documented uninterruptible",
@@ -569,6 +569,7 @@ func c08Blocking(c *Ctx) {
 	n := 0
 	ok := true
 	seen := map[string]bool{}
+	ix := BuildIndex(c.P)
 	for _, fn := range c.P.Funcs {
 		for _, b := range fn.Blocks {
 			for _, in := range b.Instrs {
@@ -604,7 +605,20 @@ func c08Blocking(c *Ctx) {
 				if _, isReviewed := reviewed[key]; isReviewed {
 					continue
 				}
-				if sel != nil && selectHasCancelCase(sel) {
+				if sel != nil && selectHasCancelCase(ix, fn, sel) {
+					continue
+				}
+				// the operation sits in a helper that only a reviewed function (for an operation of this kind) reaches;
+				// a reviewed select covers the receive it was split into and vice versa
+				inReviewed := false
+				for rk := range reviewed {
+					i := strings.LastIndex(rk, "#")
+					rkind := rk[i+1:]
+					if (rkind == kind || (rkind == "select" && kind == "recv") || (rkind == "recv" && kind == "select")) && ix.WithinNames(fn, rk[:i]) {
+						inReviewed = true
+					}
+				}
+				if inReviewed {
 					continue
 				}
 				ok = false
@@ -624,22 +638,66 @@ func c08Blocking(c *Ctx) {
 }
 
 // selectHasCancelCase: some receive case is on the result of a Done() / Canceled() call.
-func selectHasCancelCase(sel *ssa.Select) bool {
+func selectHasCancelCase(ix *Index, fn *ssa.Function, sel *ssa.Select) bool {
 	for _, s := range sel.States {
 		if s.Dir != types.RecvOnly {
 			continue
 		}
-		if call, isCall := s.Chan.(*ssa.Call); isCall {
-			name := ""
-			if call.Call.IsInvoke() {
-				name = call.Call.Method.Name()
-			} else if cal := calleeOf(&call.Call); cal != nil {
-				name = cal.Name()
-			}
-			if name == "Done" || name == "Canceled" {
-				return true
+		if isCancelChan(ix, fn, s.Chan, 0) {
+			return true
+		}
+	}
+	return false
+}
+
+// isCancelChan: v is the result of a Done() / Canceled() call, or a channel parameter of fn that receives such a
+// channel at every call site of fn.
+func isCancelChan(ix *Index, fn *ssa.Function, v ssa.Value, depth int) bool {
+	if depth > 3 {
+		return false
+	}
+	switch x := v.(type) {
+	case *ssa.Call:
+		name := ""
+		if x.Call.IsInvoke() {
+			name = x.Call.Method.Name()
+		} else if cal := calleeOf(&x.Call); cal != nil {
+			name = cal.Name()
+		}
+		return name == "Done" || name == "Canceled"
+	case *ssa.ChangeType:
+		return isCancelChan(ix, fn, x.X, depth)
+	case *ssa.Parameter:
+		pi := -1
+		for i, p := range fn.Params {
+			if p == x {
+				pi = i
 			}
 		}
+		if pi < 0 || ix.isRoot(fn) {
+			return false
+		}
+		sites := 0
+		for _, caller := range ix.Refs[fn] {
+			before := sites
+			defer func() { _ = before }()
+			for _, b := range caller.Blocks {
+				for _, in := range b.Instrs {
+					cc, isCall := in.(ssa.CallInstruction)
+					if !isCall || calleeOf(cc.Common()) != fn {
+						continue
+					}
+					sites++
+					if pi >= len(cc.Common().Args) || !isCancelChan(ix, caller, cc.Common().Args[pi], depth+1) {
+						return false
+					}
+				}
+			}
+			if sites == before {
+				return false // fn is taken as a value here: its call sites are not all known
+			}
+		}
+		return sites > 0
 	}
 	return false
 }
